@@ -29,8 +29,14 @@ theorem every_operator_evaluated : ∀ op ∈ propertyOps, probedImpl.hasOp op =
 theorem probed_flags : probedImpl.hasUnaryMinus = true ∧ probedImpl.checksZeroDivisor = true ∧
     probedImpl.checksNegativeIndex = true := by decide
 
+/-- arithmetic is 32 bit two's complement without undefined behaviour (probed on the UBSan build) -/
+theorem probed_wraps : probedImpl.wrapsOverflow = true := by decide
+
+theorem arith_probed (v : Int) : arith probedImpl v = .ok (wrap32 v) := by simp [arith, probed_wraps]
+theorem arith_full (v : Int) : arith fullImpl v = .ok (wrap32 v) := by simp [arith, fullImpl]
+
 /-- **the evaluator of the code is Promela/C's**, for every store and every expression over the
-property's operator set (values are mathematical integers: no overflow by hypothesis) -/
+property's operator set; arithmetic is 32 bit two's complement with wrap-around on both sides -/
 theorem evalModel_eq_spec (σ : Store) : ∀ e : PExpr, inFragment e = true →
     evalModel probedImpl σ e = evalSpec σ e := by
   intro e
@@ -55,7 +61,7 @@ theorem evalModel_eq_spec (σ : Store) : ∀ e : PExpr, inFragment e = true →
     simp only [inFragment] at h
     simp only [evalSpec, evalModel] at ih ⊢
     rw [ih h]
-    simp [probed_flags.1, fullImpl]
+    simp [probed_flags.1, fullImpl, arith, probed_wraps]
   | bin op l r ihl ihr =>
     intro h
     simp only [inFragment, Bool.and_eq_true] at h
@@ -65,7 +71,7 @@ theorem evalModel_eq_spec (σ : Store) : ∀ e : PExpr, inFragment e = true →
     simp only [evalSpec] at ihl ihr ⊢
     unfold evalModel
     rw [ihl hl, ihr hr]
-    simp [himpl, probed_flags.2.1, fullImpl]
+    simp [himpl, probed_flags.2.1, fullImpl, arith, probed_wraps]
 
 /-- "not a crash" -/
 def NC (r : Except EvalErr Int) : Prop := r ≠ .error .crash
@@ -117,7 +123,7 @@ theorem faults_are_errors (σ : Store) : ∀ e : PExpr, NC (evalModel probedImpl
     exact nc_bind ih (fun _ => nc_ok _)
   | uminus e ih =>
     simp only [evalModel, probed_flags.1]
-    exact nc_bind ih (fun _ => nc_ok _)
+    exact nc_bind ih (fun _ => by rw [arith_probed]; exact nc_ok _)
   | bin op l r ihl ihr =>
     unfold evalModel
     split
@@ -134,7 +140,8 @@ theorem faults_are_errors (σ : Store) : ∀ e : PExpr, NC (evalModel probedImpl
           · exact nc_bind ihr (fun _ => nc_ok _)
         · refine nc_bind ihl (fun a => nc_bind ihr (fun b => ?_))
           have hz := probed_flags.2.1
-          cases op <;> simp only [hz, if_true] <;>
+          have hw := probed_wraps
+          cases op <;> simp only [hz, hw, arith_probed, if_true] <;>
             first
               | exact nc_ok _
               | exact nc_err (by decide)
